@@ -4,6 +4,7 @@ open Lean Lentil Drv
 namespace Ops.C20
 
 instance : IntCast Float := ⟨Float.ofInt⟩
+instance instNatCastFloatC20 : NatCast Float := ⟨Float.ofNat⟩
 
 def intArr (j : Json) : R (Arr Int) := do
   let sh ← getInts j "shape"
@@ -27,6 +28,7 @@ def cellJ (h : HexCell) : Json := ints #[h.1, h.2.1, h.2.2]
 def floatsJ (l : List Float) : Json := Json.arr (l.map floatToJson).toArray
 
 def half : Float := 0.5
+def sqrtN (k : Nat) : Float := Float.sqrt (Float.ofNat k)
 
 def handle (op : String) (j : Json) : Option (R Json) :=
   match op with
@@ -88,6 +90,11 @@ def handle (op : String) (j : Json) : Option (R Json) :=
       let s ← getFloats j "shift"; let ang ← getFloat j "angle_rad"; let aa ← getBool j "aa"
       pure (okJ [("data", floatsJ ((idxList sh[0]! sh[1]!).map fun (i, jj) =>
         rectangleAt half sh[0]! sh[1]! w h s[0]! s[1]! (Float.cos ang) (Float.sin ang) aa i jj))])
+  | "spider" => some do
+      let sh ← getInts j "shape"; let w ← getFloat j "width"
+      let s ← getFloats j "shift"; let ang ← getFloat j "angle_rad"; let aa ← getBool j "aa"
+      pure (okJ [("data", floatsJ ((idxList sh[0]! sh[1]!).map fun (i, jj) =>
+        spiderAt half (Float.sqrt 2) sh[0]! sh[1]! w s[0]! s[1]! (Float.cos ang) (Float.sin ang) aa i jj))])
   | "hexagon" => some do
       let sh ← getInts j "shape"; let inner ← getFloat j "inner"; let s ← getFloats j "shift"
       let th ← getFloats j "theta"; let aa ← getBool j "aa"
@@ -96,11 +103,10 @@ def handle (op : String) (j : Json) : Option (R Json) :=
   | "hex_to_rc" => some do
       let cells ← getArr j "cells"
       let radius ← getFloat j "radius"; let rot ← getBool j "rotate"
-      let s3 := Float.sqrt 3
       let out ← cells.mapM fun c => do
         let v ← c.getArr?
         let q ← v[0]!.getInt?; let r ← v[1]!.getInt?; let t ← v[2]!.getInt?
-        let rc := hexToRC s3 (s3 / 2) 1.5 ((q, r, t) : HexCell) radius rot
+        let rc := Gen.hexToRC sqrtN ((q, r, t) : HexCell) radius rot
         pure (Json.arr #[floatToJson rc.1, floatToJson rc.2])
       pure (okJ [("rc", Json.arr out)])
   | "hex_segments" => some do
@@ -109,15 +115,21 @@ def handle (op : String) (j : Json) : Option (R Json) :=
       let rot ← getBool j "rotate"; let pad ← getNat j "pad"
       let drop ← (← getArr j "drop").mapM (·.getNat?)
       let th ← getFloats j "theta"
-      let s3 := Float.sqrt 3
-      let inner := radius * s3 / 2
-      let size : Int := Int.ofNat ((Float.ceil ((Float.ofNat (rings * 2 + 1)) * inner * 2 + (Float.ofNat (rings * 2)) * gap
-        + Float.ofNat (pad * 2))).toUInt64.toNat)
+      -- inner radius, array size, grid pitch and cell centres: the REGENERATED expressions of hex_segments / hex_to_rc
+      let inner := Gen.hexInner sqrtN radius
+      let size : Int := hexSegmentsSize (fun x => Int.ofNat (Float.ceil x).toUInt64.toNat) sqrtN rings pad radius gap
       let cells := segCells rings
       let kept := keptSegments rings drop.toList
-      let shifts := kept.map fun s => if s = 0 then ((0 : Float), (0 : Float)) else hexToRC s3 (s3 / 2) 1.5 (cells.getD s (0, 0, 0)) (radius + gap / 2) rot
+      let shifts := kept.map fun s => if s = 0 then ((0 : Float), (0 : Float)) else Gen.hexToRC sqrtN (cells.getD s (0, 0, 0)) (Gen.hexPitch radius gap) rot
       let px := (idxList size size).map fun (i, jj) =>
         (shifts.filter fun sh => hexagonAt half inner (fun n => Float.sin th[n]!) (fun n => Float.cos th[n]!) size size sh.1 sh.2 false i jj == 1).length
+      -- antialiased drawing (library default): the flattened sum of the segment masks
+      let aa := match optVal j "aa" with | some (Json.bool true) => true | _ => false
+      if aa then
+        let fl := (idxList size size).map fun (i, jj) =>
+          shifts.foldl (fun acc sh => acc + hexagonAt half inner (fun n => Float.sin th[n]!) (fun n => Float.cos th[n]!) size size sh.1 sh.2 true i jj) 0
+        pure (okJ [("size", intJ size), ("count", intJ kept.length), ("flat", floatsJ fl)])
+      else
       pure (okJ [("size", intJ size), ("count", intJ kept.length), ("sum", ints (px.map Int.ofNat).toArray)])
   | _ => none
 
